@@ -6,15 +6,15 @@ run() {
   d=$1; id=$(basename $d); prop=${id:0:3}
   P=/verif/$d/patch.diff
   wt=/tmp/sw_$id.$$
-  git -C /repo worktree add -q --detach $wt HEAD || { echo "$id worktree-failed"; return; }
+  flock /tmp/.verif_wt.lock git -C /repo worktree add -q --detach $wt HEAD || { echo "$id worktree-failed"; return; }
   if ! git -C $wt apply $P 2>/dev/null; then
-    if [ -f /verif/$d/patch.rebased.diff ] && git -C $wt apply /verif/$d/patch.rebased.diff 2>/dev/null; then :; else echo "$id patch-does-not-apply"; git -C /repo worktree remove --force $wt; return; fi
+    if [ -f /verif/$d/patch.rebased.diff ] && git -C $wt apply /verif/$d/patch.rebased.diff 2>/dev/null; then :; else echo "$id patch-does-not-apply"; flock /tmp/.verif_wt.lock git -C /repo worktree remove --force $wt; return; fi
   fi
   vd=/tmp/sv_$id.$$; mkdir -p $vd/evidence; cp /verif/known_findings.json $vd/
   out=$(GOFLAGS=-mod=mod GOPROXY=off GOSUMDB=off GOTOOLCHAIN=local /verif/bin/maddyverif -repo $wt -verif $vd -property $prop 2>&1)
   rules=$(echo "$out" | grep -E ": $prop\.[A-Za-z0-9]+ " | grep -v "KNOWN-FINDING" | sed -E "s/^[^ ]+ ($prop\.[A-Za-z0-9]+) .*/\1/" | sort -u | tr '\n' ' ')
   if echo "$out" | grep -q "^VIOLATION"; then echo "$id CAUGHT $rules"; else echo "$id missed"; fi
-  git -C /repo worktree remove --force $wt; rm -rf $vd
+  flock /tmp/.verif_wt.lock git -C /repo worktree remove --force $wt; rm -rf $vd
 }
 export -f run
 ls -d seeded/C*/ | xargs -P 8 -I{} bash -c 'run {}' | sort
